@@ -10,6 +10,9 @@
 //  4. map-order independence R repeated in-process runs (this part samples the Go runtime's
 //     per-iteration random start; it is labelled statistical and
 //     carries a measured control)
+//  8. map width x backing    every width 0..W of a string-keyed map x every backing / history x key
+//     naming x insertion order, every enumerating sink against a Go reference
+//     model of "traversal in key order" (width.go; exhaustive, not statistical)
 //
 // transcript = (printed value, stderr, error condition + message + rendered
 // stack trace, step count).
